@@ -750,12 +750,34 @@ func checkMergedOnAllPaths(r *rtCtx, merge *ssa.Function, typ, what string) {
 	n := pathsWithin(test.Block().Succs[nonNilSucc], r.entity, func(path []*ssa.BasicBlock, back bool) {
 		merged := false
 		idNil := false
+		listed := false
 		for i, b := range path {
 			for _, in := range b.Instrs {
 				if call, isCall := in.(*ssa.Call); isCall {
 					if ma := mergedArg(c, call, merge); ma != nil {
 						if ld, isLd := ma.(*ssa.UnOp); (isLd && ld.X == parsed) || ma == parsed {
 							merged = true
+						}
+					}
+					// the unkeyed list: append(list, parsed) / append(list, *parsed)
+					if isBuiltin(call, "append") && len(call.Call.Args) == 2 {
+						if sl, isSl := call.Call.Args[1].(*ssa.Slice); isSl {
+							if arr, isArr := sl.X.(*ssa.Alloc); isArr {
+								for _, ref := range *arr.Referrers() {
+									if ia, isIA := ref.(*ssa.IndexAddr); isIA {
+										for _, r2 := range *ia.Referrers() {
+											if st, isSt := r2.(*ssa.Store); isSt {
+												if st.Val == parsed {
+													listed = true
+												}
+												if ld, isLd := st.Val.(*ssa.UnOp); isLd && ld.Op == token.MUL && ld.X == parsed {
+													listed = true
+												}
+											}
+										}
+									}
+								}
+							}
 						}
 					}
 				}
@@ -774,6 +796,12 @@ func checkMergedOnAllPaths(r *rtCtx, merge *ssa.Function, typ, what string) {
 		if !merged && !(typ == "Vehicle" && idNil) {
 			ok = false
 			detail = "a path from `" + what + " != nil` back to the loop head skips the merge (blocks " + blockList(path) + ")"
+		}
+		// a vehicle without identifier is kept too: on the ID == nil edge every path puts it on the unkeyed list (a
+		// further condition there would leave a vehicle that a trip points at out of Vehicles)
+		if typ == "Vehicle" && idNil && !merged && !listed {
+			ok = false
+			detail = "a vehicle without identifier is not put on the list of such vehicles on every path (blocks " + blockList(path) + "): it is missing from Vehicles although a trip may point at it"
 		}
 	})
 	c.Check(ok && n > 0, "MERGE", r.fname, "every parsed "+what+" is merged", p.ipos(test), fmt.Sprintf("all %d paths from `%s != nil` to the next entity merge it into its accumulator", n, what), detail)
